@@ -18,6 +18,13 @@
 //     `save` under Lock — derived from GetAndUpdate's body, not declared);
 //   - `go func(){…}()` starts with the empty lock set; other func literals are assumed to be called
 //     synchronously by the callee they are passed to and inherit the current lock set;
+//   - a function value bound to a local (`get := func(){…}`, `f := r.save`, `g := f`) is walked where it
+//     is used, not where it is written: at its call (locks held there), at the argument slot it is passed
+//     in (so a GetAndUpdate callback passed through a local gets the slot's locks), at `go f()` (no
+//     locks); one that is only returned/stored is walked with the locks held at its definition;
+//   - the locks a caller keeps holding while a callee runs travel into the callee: renamed to the
+//     callee's receiver for a direct receiver call X.m(), otherwise as ambient locks that are matched to
+//     accesses by the owner's type (the callee may reach the same object through another path);
 //   - constructor-phase code (functions named New*/With*/compute*/calc*, composite literals) yields
 //     phase=init rows;
 //   - channel fields: `close(X.c)` at the top level of a function, where it is the only close site of
@@ -202,6 +209,167 @@ type fctx struct {
 	params  map[*types.Var]int // parameters of decl (index), for summaries
 	top     bool               // walking a top-level plain statement of the function body
 	topRows []*Row             // rows recorded by top-level plain statements (candidates for relAfter)
+	b       *bindings          // function values bound to local variables, shared by all contexts of one function
+}
+
+// A function value bound to a local variable (`get := func() {…}`, `f := r.save`, `g := f`) is not
+// walked where it is written down but where it is used: called (`get()`: the locks held at the call),
+// passed to a callee (exactly like an inline literal at that argument position, so a GetAndUpdate
+// callback passed through a local gets the slot's locks), started with `go` (no locks).  A binding
+// that is never used in one of these ways (returned, stored, …) is walked once with the locks held
+// where it was defined, which is what an inline literal at that place would get.
+type binding struct {
+	lit  *ast.FuncLit
+	fn   *types.Func // method value or function value (package-local)
+	recv ast.Expr    // receiver expression of a method value
+	name string
+	def  *state
+	ctx  *fctx
+	used bool
+}
+
+type bindings struct {
+	m     map[types.Object]*binding
+	order []*binding
+	busy  map[*ast.FuncLit]bool
+}
+
+func newBindings() *bindings {
+	return &bindings{m: map[types.Object]*binding{}, busy: map[*ast.FuncLit]bool{}}
+}
+
+func (c *fctx) child(suffix string) *fctx {
+	return &fctx{fn: c.fn + suffix, decl: c.decl, phase: c.phase, role: c.role, params: c.params, b: c.b}
+}
+
+func (pa *pkgAn) objOf(id *ast.Ident) types.Object {
+	if o := pa.info.Defs[id]; o != nil {
+		return o
+	}
+	return pa.info.Uses[id]
+}
+
+// resolveFn: e denotes a function value the extractor can follow
+func (pa *pkgAn) resolveFn(c *fctx, e ast.Expr) *binding {
+	for {
+		if p, ok := e.(*ast.ParenExpr); ok {
+			e = p.X
+			continue
+		}
+		break
+	}
+	switch x := e.(type) {
+	case *ast.FuncLit:
+		return &binding{lit: x, name: "func"}
+	case *ast.Ident:
+		o := pa.info.Uses[x]
+		if o == nil {
+			return nil
+		}
+		if b := c.b.m[o]; b != nil {
+			return b
+		}
+		if fn, ok := o.(*types.Func); ok && pa.decls[fn] != nil {
+			return &binding{fn: fn, name: fn.Name()}
+		}
+	case *ast.SelectorExpr:
+		if sel := pa.info.Selections[x]; sel != nil && sel.Kind() == types.MethodVal {
+			if fn, ok := sel.Obj().(*types.Func); ok && pa.decls[fn] != nil {
+				return &binding{fn: fn, recv: x.X, name: fn.Name()}
+			}
+		}
+	}
+	return nil
+}
+
+// bind records `name := <function value>`; reports whether it did
+func (pa *pkgAn) bind(c *fctx, st *state, lhs ast.Expr, rhs ast.Expr) bool {
+	id, ok := lhs.(*ast.Ident)
+	if !ok || id.Name == "_" {
+		return false
+	}
+	o := pa.objOf(id)
+	if o == nil {
+		return false
+	}
+	if v, isVar := o.(*types.Var); !isVar || v.Parent() == v.Pkg().Scope() {
+		return false // only local variables
+	}
+	src := pa.resolveFn(c, rhs)
+	if src == nil {
+		return false
+	}
+	src.used = true
+	if old := c.b.m[o]; old != nil && !old.used {
+		old.used = true
+		pa.invoke(old.ctx, old.def, old, "/"+old.name)
+	}
+	nb := &binding{lit: src.lit, fn: src.fn, recv: src.recv, name: id.Name, def: st.clone(), ctx: c}
+	c.b.m[o] = nb
+	c.b.order = append(c.b.order, nb)
+	if src.recv != nil {
+		pa.walkExpr(c, st, src.recv)
+	}
+	return true
+}
+
+// invoke walks the function value with the given lock state
+func (pa *pkgAn) invoke(c *fctx, st *state, b *binding, suffix string) {
+	if b.lit != nil {
+		if c.b.busy[b.lit] {
+			return
+		}
+		c.b.busy[b.lit] = true
+		fc := c.child(suffix)
+		pa.walkBody(fc, st.clone(), b.lit.Body)
+		pa.flush(fc)
+		delete(c.b.busy, b.lit)
+		return
+	}
+	if b.fn != nil {
+		pa.invokeFunc(c, st, b.fn, b.recv)
+	}
+}
+
+// invokeFunc follows a call of a package-local function/method: the caller's locks on the receiver
+// expression (a direct receiver X.m, not X.other.m) become the callee's entry lock set
+func (pa *pkgAn) invokeFunc(c *fctx, st *state, callee *types.Func, recvX ast.Expr) {
+	pa.called[callee] = true
+	entry := map[string]string{}
+	direct := ""
+	if recvX != nil {
+		if _, ok := recvX.(*ast.Ident); ok {
+			direct = rootIdent(recvX)
+		}
+	}
+	for k, m := range st.held {
+		if k.lock == "$param" {
+			continue
+		}
+		if direct != "" && k.base == direct {
+			entry[k.lock] = m
+			continue
+		}
+		// The caller keeps holding its other locks while the callee runs.  Which object they belong to is
+		// not known inside the callee (it may reach the same object through another path, `w.r.store()`),
+		// so they travel as ambient locks and are matched to accesses by the owner's type (see record).
+		if old, ok := entry["*"+k.lock]; !ok || old == "R" {
+			entry["*"+k.lock] = m
+		}
+	}
+	phase := c.phase
+	if pa.rootPhase(callee) == "init" {
+		phase = "init"
+	}
+	role := c.role
+	if r := pa.rootRole(callee); r != 0 {
+		role = r
+	}
+	var acq []string
+	for ch := range st.acq {
+		acq = append(acq, ch)
+	}
+	pa.analyse(callee, entry, role, phase, acq...)
 }
 
 type fakeImporter struct{ pkgs map[string]*types.Package }
@@ -239,6 +407,7 @@ func isSyncMutex(e ast.Expr) (isMutex, rw bool) {
 
 // Extract builds the table from the repository rooted at root.
 func Extract(root string) (*Table, error) {
+	ambientUsed = map[string]bool{}
 	var dirs []string
 	for _, top := range []string{"pkg", "internal"} {
 		_ = filepath.Walk(filepath.Join(root, top), func(p string, fi os.FileInfo, err error) error {
@@ -284,6 +453,9 @@ func Extract(root string) (*Table, error) {
 		tbl.Rows = append(tbl.Rows, all[k])
 	}
 	addSharedGlobals(tbl, pas)
+	for _, k := range keys(ambientUsed) {
+		tbl.Notes = append(tbl.Notes, "ambient lock matched by owner type: "+k)
+	}
 	sort.SliceStable(tbl.Rows, func(i, j int) bool {
 		a, b := tbl.Rows[i], tbl.Rows[j]
 		if a.Field != b.Field {
@@ -583,7 +755,7 @@ func (pa *pkgAn) label(fn *types.Func) string {
 func (pa *pkgAn) rootRole(fn *types.Func) int {
 	l := pa.label(fn)
 	for _, r := range roles {
-		if strings.HasPrefix(l, r.Prefix) {
+		if l == r.Prefix || (strings.HasSuffix(r.Prefix, ".") && strings.HasPrefix(l, r.Prefix)) {
 			return r.Role
 		}
 	}
@@ -654,10 +826,31 @@ func (pa *pkgAn) record(c *fctx, st *state, fi *fieldInfo, kind string, at ast.E
 	}
 	base := rootIdent(at)
 	r := &Row{Field: fi.full(), Kind: kind, Fn: c.fn, Phase: c.phase, Role: c.role, Pos: []string{pa.pos(at)}}
+	got := map[string]string{}
 	for k, m := range st.held {
 		if k.base == base {
-			r.Held = append(r.Held, HeldLock{k.lock, m})
+			got[k.lock] = m
 		}
+	}
+	rootType := pa.rootType(at)
+	for k, m := range st.held {
+		if k.base != "*" {
+			continue
+		}
+		owner := k.lock
+		if f := pa.lockOwner(k.lock); f != "" {
+			owner = f
+		}
+		if owner != fi.owner && owner != rootType {
+			continue
+		}
+		if old, ok := got[k.lock]; !ok || (old == "R" && m == "X") {
+			got[k.lock] = m
+			ambientUsed[fi.full()+" in "+c.fn+" ("+k.lock+")"] = true
+		}
+	}
+	for l, m := range got {
+		r.Held = append(r.Held, HeldLock{l, m})
 	}
 	sort.Slice(r.Held, func(i, j int) bool { return r.Held[i].Lock < r.Held[j].Lock })
 	for ch := range st.acq {
@@ -678,6 +871,55 @@ func (pa *pkgAn) pending(c *fctx, r *Row) {
 }
 
 var pendingRows = map[*fctx][]*Row{}
+
+// rows whose lock set relies on an ambient lock matched by type (reported in the table's notes)
+var ambientUsed = map[string]bool{}
+
+// lockOwner: the struct type a mutex field belongs to ("resource.Collection" for "resource.Collection.mu")
+func (pa *pkgAn) lockOwner(lock string) string {
+	for _, fi := range pa.fields {
+		if fi.isMutex && fi.full() == lock {
+			return fi.owner
+		}
+	}
+	return ""
+}
+
+// rootType: the (pointer-stripped) named type of the variable at the root of a selector chain
+func (pa *pkgAn) rootType(e ast.Expr) string {
+	for {
+		switch x := e.(type) {
+		case *ast.Ident:
+			o := pa.info.Uses[x]
+			if o == nil {
+				o = pa.info.Defs[x]
+			}
+			if o == nil || o.Type() == nil {
+				return ""
+			}
+			t := o.Type()
+			if p, ok := t.(*types.Pointer); ok {
+				t = p.Elem()
+			}
+			if n, ok := t.(*types.Named); ok {
+				return pa.short + "." + n.Obj().Name()
+			}
+			return ""
+		case *ast.SelectorExpr:
+			e = x.X
+		case *ast.StarExpr:
+			e = x.X
+		case *ast.ParenExpr:
+			e = x.X
+		case *ast.IndexExpr:
+			e = x.X
+		case *ast.UnaryExpr:
+			e = x.X
+		default:
+			return ""
+		}
+	}
+}
 
 func (pa *pkgAn) flush(c *fctx) {
 	for _, r := range pendingRows[c] {
@@ -728,12 +970,16 @@ func (pa *pkgAn) analyse(fn *types.Func, entry map[string]string, role int, phas
 		recv = fd.Recv.List[0].Names[0].Name
 	}
 	for l, m := range entry {
-		st.held[lockKey{recv, l}] = m
+		if strings.HasPrefix(l, "*") {
+			st.held[lockKey{"*", l[1:]}] = m // ambient: held by a caller further up, on whatever object it locked
+		} else {
+			st.held[lockKey{recv, l}] = m
+		}
 	}
 	for _, ch := range acq {
 		st.acq[ch] = true // observed by the caller before the call
 	}
-	c := &fctx{fn: pa.label(fn), decl: fn, phase: phase, role: role, params: map[*types.Var]int{}}
+	c := &fctx{fn: pa.label(fn), decl: fn, phase: phase, role: role, params: map[*types.Var]int{}, b: newBindings()}
 	if sig, ok := fn.Type().(*types.Signature); ok {
 		for i := 0; i < sig.Params().Len(); i++ {
 			c.params[sig.Params().At(i)] = i
@@ -741,6 +987,13 @@ func (pa *pkgAn) analyse(fn *types.Func, entry map[string]string, role int, phas
 	}
 	pa.walkBody(c, st, fd.Body)
 	pa.flush(c)
+	// function values bound to locals that were never called / passed / started: as an inline literal
+	for i := 0; i < len(c.b.order); i++ {
+		if b := c.b.order[i]; !b.used {
+			b.used = true
+			pa.invoke(b.ctx, b.def, b, "/"+b.name)
+		}
+	}
 }
 
 // walkBody walks the statements of a function body; plain top-level statements are candidates for
@@ -839,10 +1092,18 @@ func (pa *pkgAn) walkStmt(c *fctx, st *state, s ast.Stmt) (*state, bool) {
 		pa.walkLHS(c, st, x.X, true)
 		return st, false
 	case *ast.AssignStmt:
-		for _, r := range x.Rhs {
+		bound := map[int]bool{}
+		for i, r := range x.Rhs {
+			if len(x.Lhs) == len(x.Rhs) && (x.Tok == token.DEFINE || x.Tok == token.ASSIGN) && pa.bind(c, st, x.Lhs[i], r) {
+				bound[i] = true
+				continue
+			}
 			pa.walkExpr(c, st, r)
 		}
-		for _, l := range x.Lhs {
+		for i, l := range x.Lhs {
+			if bound[i] {
+				continue
+			}
 			if x.Tok == token.DEFINE {
 				if _, ok := l.(*ast.Ident); ok {
 					continue
@@ -867,7 +1128,10 @@ func (pa *pkgAn) walkStmt(c *fctx, st *state, s ast.Stmt) (*state, bool) {
 		if gd, ok := x.Decl.(*ast.GenDecl); ok {
 			for _, sp := range gd.Specs {
 				if vs, ok := sp.(*ast.ValueSpec); ok {
-					for _, v := range vs.Values {
+					for i, v := range vs.Values {
+						if len(vs.Names) == len(vs.Values) && pa.bind(c, st, vs.Names[i], v) {
+							continue
+						}
 						pa.walkExpr(c, st, v)
 					}
 				}
@@ -1141,11 +1405,24 @@ func (pa *pkgAn) walkGo(c *fctx, st *state, call *ast.CallExpr) {
 	if fl, ok := call.Fun.(*ast.FuncLit); ok {
 		// a new goroutine: no locks of the spawner, no role; the `go` statement itself orders what
 		// happened before it, which the phase captures for constructors only
-		gc := &fctx{fn: c.fn + "/go", decl: c.decl, phase: c.phase, role: 0, params: map[*types.Var]int{}}
+		gc := c.child("/go")
+		gc.role = 0
+		gc.params = map[*types.Var]int{}
 		gs := newState()
 		pa.walkBody(gc, gs, fl.Body)
 		pa.flush(gc)
 		return
+	}
+	// go f(...) with f a function value bound to a local: its body runs on the new goroutine
+	if id, ok := call.Fun.(*ast.Ident); ok {
+		if b := c.b.m[pa.info.Uses[id]]; b != nil {
+			b.used = true
+			gc := c.child("/go")
+			gc.role = 0
+			gc.fn = c.fn
+			pa.invoke(gc, newState(), b, "/go:"+b.name)
+			return
+		}
 	}
 	// go X.m(...): analysed as a root of its own
 	if callee := pa.calleeOf(call); callee != nil {
@@ -1176,7 +1453,13 @@ func (pa *pkgAn) calleeOf(call *ast.CallExpr) *types.Func {
 func (pa *pkgAn) walkExpr(c *fctx, st *state, e ast.Expr) {
 	switch x := e.(type) {
 	case nil:
-	case *ast.Ident, *ast.BasicLit:
+	case *ast.BasicLit:
+	case *ast.Ident:
+		// a bound function value mentioned anywhere else (returned, stored, compared): like a literal here
+		if b := c.b.m[pa.info.Uses[x]]; b != nil && !b.used {
+			b.used = true
+			pa.invoke(c, st, b, "/"+b.name)
+		}
 	case *ast.ParenExpr:
 		pa.walkExpr(c, st, x.X)
 	case *ast.SelectorExpr:
@@ -1215,9 +1498,7 @@ func (pa *pkgAn) walkExpr(c *fctx, st *state, e ast.Expr) {
 		pa.walkComposite(c, st, x)
 	case *ast.FuncLit:
 		// assumed to be invoked synchronously by whoever receives it: inherits the current locks
-		fc := &fctx{fn: c.fn + "/func", decl: c.decl, phase: c.phase, role: c.role, params: c.params}
-		pa.walkBody(fc, st.clone(), x.Body)
-		pa.flush(fc)
+		pa.invoke(c, st, &binding{lit: x}, "/func")
 	case *ast.CallExpr:
 		pa.walkCall(c, st, x)
 	}
@@ -1310,15 +1591,19 @@ func (pa *pkgAn) walkCall(c *fctx, st *state, call *ast.CallExpr) {
 				}
 			}
 			for i, a := range call.Args {
-				fl, ok := a.(*ast.FuncLit)
-				if !ok {
-					continue
-				}
 				sets, ok := summ[i]
 				if !ok {
 					continue
 				}
+				fb := pa.resolveFn(c, a)
+				if fb == nil {
+					continue
+				}
+				fb.used = true
 				handled[i] = true
+				if fb.recv != nil {
+					pa.walkExpr(c, st, fb.recv)
+				}
 				for _, ls := range sets {
 					cs := st.clone()
 					var tag []string
@@ -1340,9 +1625,7 @@ func (pa *pkgAn) walkCall(c *fctx, st *state, call *ast.CallExpr) {
 					if i < len(pnames) {
 						name = pnames[i]
 					}
-					fc := &fctx{fn: fmt.Sprintf("%s/%s{%s}", c.fn, name, strings.Join(tag, ",")), decl: c.decl, phase: c.phase, role: c.role, params: c.params}
-					pa.walkBody(fc, cs, fl.Body)
-					pa.flush(fc)
+					pa.invoke(c, cs, fb, fmt.Sprintf("/%s{%s}", name, strings.Join(tag, ",")))
 				}
 			}
 		}
@@ -1357,6 +1640,19 @@ func (pa *pkgAn) walkCall(c *fctx, st *state, call *ast.CallExpr) {
 				pa.record(c, st, fi, "W", a)
 			}
 		}
+		// a function value handed to a callee without a summary: assumed to be called synchronously
+		if fb := pa.resolveFn(c, a); fb != nil && fb.lit == nil {
+			fb.used = true
+			if fb.recv != nil {
+				pa.walkExpr(c, st, fb.recv)
+			}
+			pa.invoke(c, st, fb, "/"+fb.name)
+			continue
+		} else if fb != nil && fb.def != nil {
+			fb.used = true
+			pa.invoke(c, st, fb, "/"+fb.name)
+			continue
+		}
 		pa.walkExpr(c, st, a)
 	}
 	switch f := call.Fun.(type) {
@@ -1369,36 +1665,20 @@ func (pa *pkgAn) walkCall(c *fctx, st *state, call *ast.CallExpr) {
 	case *ast.FuncLit:
 		pa.walkExpr(c, st, f)
 	case *ast.Ident:
+		// a call of a function value bound to a local: its body runs here, under the locks held here
+		if b := c.b.m[pa.info.Uses[f]]; b != nil {
+			b.used = true
+			pa.invoke(c, st, b, "/"+b.name)
+		}
 	default:
 		pa.walkExpr(c, st, call.Fun)
 	}
 	if callee != nil {
-		pa.called[callee] = true
-		entry := map[string]string{}
+		var recvX ast.Expr
 		if se, ok := call.Fun.(*ast.SelectorExpr); ok {
-			base := rootIdent(se.X)
-			// only a direct receiver (X.m(), not X.other.m()) carries X's locks into the callee
-			if _, direct := se.X.(*ast.Ident); direct {
-				for k, m := range st.held {
-					if k.base == base && k.lock != "$param" {
-						entry[k.lock] = m
-					}
-				}
-			}
+			recvX = se.X
 		}
-		phase := c.phase
-		if pa.rootPhase(callee) == "init" {
-			phase = "init"
-		}
-		role := c.role
-		if r := pa.rootRole(callee); r != 0 {
-			role = r
-		}
-		var acq []string
-		for ch := range st.acq {
-			acq = append(acq, ch)
-		}
-		pa.analyse(callee, entry, role, phase, acq...)
+		pa.invokeFunc(c, st, callee, recvX)
 	}
 }
 
